@@ -6,7 +6,9 @@
 (* (parse / compile diagnostics, runtime error, or none) and the contents  *)
 (* of the observation array OBS read back after the line.  The session is  *)
 (* accepted iff every line's class and the observations after it are those *)
-(* of Repl.RunLine from the state built by the lines before it.            *)
+(* of Repl.RunLine from the state built by the lines before it, and what   *)
+(* the line printed is what the same line prints at the end of a script    *)
+(* made of the lines accepted before it (both texts are recorded).         *)
 (***************************************************************************)
 EXTENDS Repl, Json, IOUtils
 
@@ -30,6 +32,9 @@ Verdict(rec) ==
              IN IF r.class = "unspec" THEN [acc EXCEPT !.free = TRUE]
                 ELSE IF r.class # l.class THEN [acc EXCEPT !.ok = FALSE, !.at = i, !.why = "class", !.want = r.class]
                 ELSE IF ~SameObs(ObsOf(r.ts), l.obs) THEN [acc EXCEPT !.ok = FALSE, !.at = i, !.why = "state", !.want = r.class]
+                \* what the line printed is what it prints as the last line of a script of the lines accepted so far
+                \* (l.script = <<-1>>: not compared)
+                ELSE IF l.script # <<-1>> /\ l.echo # l.script THEN [acc EXCEPT !.ok = FALSE, !.at = i, !.why = "output", !.want = r.class]
                 ELSE [acc EXCEPT !.ts = r.ts]
       r == FoldLeft(f, [ok |-> TRUE, free |-> FALSE, at |-> 0, why |-> "", want |-> "", ts |-> TopState0], [i \in 1..Len(rec.lines) |-> i])
   IN [id |-> rec.id, v |-> IF r.ok THEN "ok" ELSE "bad", at |-> r.at, why |-> r.why, want |-> r.want]
